@@ -1622,7 +1622,10 @@ class Composite(Parameter):
         self._validate_attribs(val, self.attribs)
 
     def _post_setter(self, obj, val):
-        target = self.objtype if obj is None else obj
+        # (class level: the class that owns this Parameter object, which is a
+        # subclass of the declaring class after a class-level assignment
+        # through that subclass)
+        target = (self.owner or self.objtype) if obj is None else obj
         # every component is checked before any is assigned: a rejected
         # component must not leave the others already changed
         for a, v in zip(self.attribs, val):
